@@ -635,6 +635,23 @@ func generate(rng *rand.Rand, tier string) []interface{} {
 	}
 	add(malformedRosters())
 	{
+		// ids computed by many goroutines at once (one group each for rosters, trees, tokens)
+		var rs [][]mem
+		for i := 0; i < 8; i++ {
+			rs = append(rs, randomRoster(rng, 0, 10))
+		}
+		rs = append(rs, plainRoster(edKeys(0, 5)), cloneRoster(rs[0]))
+		add(input{Kind: "rosters", Label: "concurrent", Rosters: rs})
+		keys := edKeys(0, 6)
+		var ts []treeIn
+		for _, s := range shapes(4) {
+			ts = append(ts, treeIn{Ro: 0, T: labelled(s, keys)})
+		}
+		add(input{Kind: "trees", Label: "concurrent", Rosters: [][]mem{plainRoster(keys)}, Trees: ts})
+		toks, ders := derivedTokenGroup(rng)
+		add(input{Kind: "tokens", Label: "concurrent", Tokens: toks[:14], Derive: ders[:14]})
+	}
+	{
 		// rosters whose caller goes on editing the slice it passed to NewRoster
 		na := 10
 		if !quick {
